@@ -63,7 +63,7 @@ ODD = [
     'negative-size', 'size-mismatch-zero', 'ignore-and-data',
     'misc-vs-data-dup', 'manifest-self-reference',
     'bz2-garbage', 'xz-truncated', 'entry-dotdot', 'top-symlink-loop',
-    'two-timestamps', 'timestamp-in-sub-manifest',
+    'two-timestamps', 'timestamp-in-sub-manifest', 'top-level-compressed',
 ]
 
 
@@ -205,6 +205,15 @@ def apply_odd(root, kind):
         hints['whole_tree_update'] = True
     elif kind == 'top-symlink-loop':
         os.symlink('.', os.path.join(root, 'other', 'self'))
+    elif kind == 'top-level-compressed':
+        # the tree's top-level Manifest is stored as Manifest.gz only
+        top = os.path.join(root, 'Manifest')
+        if os.path.isfile(top):
+            with open(top, 'rb') as f:
+                data = f.read()
+            os.unlink(top)
+            with open(top + '.gz', 'wb') as f:
+                f.write(R.compress(data, 'gz'))
     return hints
 
 
@@ -251,6 +260,8 @@ def case(draw):
     else:
         d['odd'] = draw(st.lists(st.sampled_from(ODD), min_size=1,
                                  max_size=2, unique=True))
+        # (applied last: the other kinds append to the plain Manifest)
+        d['odd'].sort(key=lambda k: k == 'top-level-compressed')
         dirs += ['sub', 'other', 'sub/deep']
     d['cmds'] = [draw(command(dirs)) for _ in range(draw(st.integers(1, 3)))]
     return d
@@ -470,6 +481,10 @@ def run_case(desc):
                 names = set(re.findall(r"'([^']*)'", msg))
                 if names and names <= dual:
                     sig += ':path-listed-as-manifest-and-as-file'
+                elif names and names <= {'Manifest.gz', 'Manifest.bz2',
+                                         'Manifest.lzma', 'Manifest.xz'} \
+                        and c['cmd'] == 'create':
+                    sig += ':create-next-to-compressed-top-level'
                 elif names and all(
                         any(c.startswith('.') for c in n.split('/'))
                         or any(n == i or n.startswith(i + '/')
